@@ -452,6 +452,47 @@ def readRecord (C : Crypto) (c : Conn) : Step :=
         | .error a => failAlert C { c with raw := c.raw.drop (5 + n) } a
         | .ok (data, typ, inn') => afterDecrypt C { c with raw := c.raw.drop (5 + n) } data typ inn'
 
+/-- outcome of handling one complete post-handshake message. -/
+inductive MsgRes where
+  | cont (c : Conn) (sent : List Bytes)
+  | fail (e : Err) (c : Conn) (sent : List Bytes)
+
+def msgAlert (C : Crypto) (c : Conn) (code : Nat) : MsgRes :=
+  let r := sendAlert C c code
+  .fail (.alert code) { r.2 with inErr := some (.alert code) } r.1
+
+/-- the body of `handlePostHandshakeMessage` (TLS 1.3) for one complete message of type `t`:
+`unmarshal`, the `retryCount` check, then `handleKeyUpdate` / `handleNewSessionTicket` / refusal.
+`c1` is the connection with the message already removed from `hand`. -/
+def handleMsg (C : Crypto) (c1 : Conn) (t : Nat) (body : Bytes) : MsgRes :=
+  if t = typeKeyUpdate then
+    match body with
+    | [x] =>
+      if x.toNat > 1 then msgAlert C c1 alertUnexpectedMessage
+      else
+        let c2 := { c1 with retry := c1.retry + 1 }
+        if c2.retry > maxUselessRecords then
+          let r := sendAlert C c2 alertUnexpectedMessage
+          .fail .tooMany { r.2 with inErr := some .tooMany } r.1
+        else
+          -- handleKeyUpdate
+          let c3 := { c2 with inn := rekey C c2.inn }
+          if x.toNat = 1 then
+            let r := sendKeyUpdate C c3 false
+            .cont r.2 r.1
+          else .cont c3 []
+    | _ => msgAlert C c1 alertUnexpectedMessage
+  else if t = typeNewSessionTicket then
+    let c2 := { c1 with retry := c1.retry + 1 }
+    if c2.retry > maxUselessRecords then
+      let r := sendAlert C c2 alertUnexpectedMessage
+      .fail .tooMany { r.2 with inErr := some .tooMany } r.1
+    else if c1.p.isClient then .cont c2 []
+    else
+      let r := sendAlert C c2 alertUnexpectedMessage
+      .fail .ticketFromClient r.2 r.1
+  else msgAlert C c1 alertUnexpectedMessage
+
 /-- `for c.hand.Len() > 0 { handlePostHandshakeMessage() }`: every complete message in `hand` is
 handled; an incomplete one is left for the caller's loop to complete by reading more records (the
 real code does that from inside `readHandshakeBytes`). Fuel: the length of `hand`. -/
@@ -469,44 +510,9 @@ def drainHand (C : Crypto) : Nat → Conn → List Bytes → Step
           failWith .hsTooLong r.2 (sent ++ r.1)
         else if rest.length < n then .next c sent
         else
-          let body := rest.take n
-          let c1 := { c with hand := rest.drop n }
-          if t.toNat = typeKeyUpdate then
-            match body with
-            | [x] =>
-              if x.toNat > 1 then
-                match failAlert C c1 alertUnexpectedMessage with
-                | .fail e c2 s2 => .fail e c2 (sent ++ s2)
-                | o => o
-              else
-                let c2 := { c1 with retry := c1.retry + 1 }
-                if c2.retry > maxUselessRecords then
-                  let r := sendAlert C c2 alertUnexpectedMessage
-                  failWith .tooMany r.2 (sent ++ r.1)
-                else
-                  -- handleKeyUpdate
-                  let c3 := { c2 with inn := rekey C c2.inn }
-                  if x.toNat = 1 then
-                    let r := sendKeyUpdate C c3 false
-                    drainHand C f r.2 (sent ++ r.1)
-                  else drainHand C f c3 sent
-            | _ =>
-              match failAlert C c1 alertUnexpectedMessage with
-              | .fail e c2 s2 => .fail e c2 (sent ++ s2)
-              | o => o
-          else if t.toNat = typeNewSessionTicket then
-            let c2 := { c1 with retry := c1.retry + 1 }
-            if c2.retry > maxUselessRecords then
-              let r := sendAlert C c2 alertUnexpectedMessage
-              failWith .tooMany r.2 (sent ++ r.1)
-            else if c.p.isClient then drainHand C f c2 sent
-            else
-              let r := sendAlert C c2 alertUnexpectedMessage
-              .fail .ticketFromClient r.2 (sent ++ r.1)
-          else
-            match failAlert C c1 alertUnexpectedMessage with
-            | .fail e c2 s2 => .fail e c2 (sent ++ s2)
-            | o => o
+          match handleMsg C { c with hand := rest.drop n } t.toNat (rest.take n) with
+          | .cont c2 s2 => drainHand C f c2 (sent ++ s2)
+          | .fail e c2 s2 => .fail e c2 (sent ++ s2)
     | _ => if c.p.s.vers ≠ v13 then failWith .renego c sent else .next c sent
 
 inductive Fill where
